@@ -155,6 +155,16 @@ CLAIMED = {
    design_ref="DESIGN.md section 6, C18",
    note="Trusted: Coq kernel, extraction, OCaml driver, the Python driver pyharness/run_py.py, Python oracle; PyO3 glue and num-bigint are exercised only.",
    technique="correspondence: Coq model extracted to OCaml vs the real Python extension module + oracle from abstract history"),
+ "C17": dict(
+   category="translation_validation",
+   text="With feature serde1 every Hierarchy and loaded Signal of generated VCD files and of the corpus files of all three formats is "
+        "serialised with serde_json, deserialised, and the clone's complete observation (tree walk with attributes, lookups, slice info, "
+        "change iteration, point queries at every index) is compared with the original; the JSON of real objects is validated against a "
+        "schema that a translator regenerates from the derive sites of the current source on every run (26 types). No Coq theorem is "
+        "pinned for this property yet (the generated-schema round-trip theorem of DESIGN.md is future work), hence the level.",
+   design_ref="DESIGN.md section 6, C17",
+   note="Trusted: serde derive macros and serde_json (A-serde), the translator, the Python schema validator, the Rust harness.",
+   technique="translator (derive sites -> schema) + validation of real JSON + behavioural round trip on generated and corpus objects"),
 }
 
 NOT_YET = {}
